@@ -303,6 +303,15 @@ Test("A") Max= A();
 Test("P") Max= P();
 Only(x) :- x == S();
 ''', ['Test', 'Only', 'C']),
+  'user_iteration': ('''@Engine("sqlite");
+@Ground(T0); @Ground(T1); @Ground(T2, T0);
+T0(0);
+T1(x + 1) :- T0(x), x < 100;
+T1(x) :- T0(x);
+T2(x) distinct :- T1(x);
+@Iteration(Loop, predicates: [T1, T2], repetitions: 5);
+Out(x) :- T2(x);
+''', ['Out', 'T2', 'T1']),
   'deep_mutual': ('''@Engine("sqlite");
 @Recursive(Ev, 22);
 E(0, 1); E(1, 2); E(2, 3); E(3, 4); E(4, 5); E(5, 6);
@@ -385,6 +394,7 @@ def work_compiled(task):
   bad = []; stats = dict(plans=0, statements=0, plan_comparisons=0); samples = []
   single = {}
   def viol(sig, what, subset):
+    if name == 'user_iteration' and any(m in subset for m in ('T1', 'T2')): sig = 'F50-member-of-a-user-written-iteration-requested/' + sig.split('/')[0]
     bad.append(dict(sig=sig + '/compiled', what='%s | program=%s requested=%s' % (what, name, subset), case=dict(kind='compiled', program=name, subset=subset)))
   for p in preds:
     rec = []
